@@ -288,6 +288,11 @@ func runReplayTest(e *Engine, r *UnitResult, o *Obligation) (bool, string, strin
 				if v, ok := smtValueToInt(o.Model[name], 0); ok && v == "0" {
 					return "nil", true
 				}
+				if _, known := o.Model[name]; !known || strings.Count(name, ".") >= 2 {
+					// the model does not describe this object (or it is nested too
+					// deeply, e.g. self-referential structs): leave the field nil
+					return "", false
+				}
 				var fs []string
 				for i := 0; i < su.NumFields(); i++ {
 					f := su.Field(i)
